@@ -22,6 +22,9 @@ Inductive ferr : Type :=
 (* Data::try_new *)
 Definition data_try_new (l : list N) : result ferr (list N) :=
   if 255 <? nlen l then Err (DataTooLong (nlen l)) else Ok l.
+(* The same decision from the length alone (Some n = refused, n bytes are too many): what lets the correspondence ask
+   about blocks far too large to write down, e.g. 2^32 bytes. *)
+Definition data_try_new_len (n : N) : option N := if 255 <? n then Some n else None.
 
 (* u8::wrapping_sub *)
 Definition wsub (a b : N) : N := (a + 256 - b mod 256) mod 256.
